@@ -96,12 +96,14 @@ prop("C02", NEC + "Clauses: token-range to text-range conversions unwrap first()
      "recursive walk of the front end and of the handlers needs stack for, is bounded where the tree is built (RECURSION-BOUND; open known findings); "
      "the frame decoder slices the body only behind the guard on the very bound it slices with and takes no unguarded unsigned difference (CODEC: "
      "a panic in the reader task ends the process).",
-     [{"rule": "EMPTY-RANGE-GUARD", "filter": nottag("diagstart"), "floor": 2}, {"rule": "LOOKUP-NOPANIC", "floor": 14},
+     [{"rule": "EMPTY-RANGE-GUARD", "filter": nottag("diagstart", "diagtokens"), "floor": 2}, {"rule": "LOOKUP-NOPANIC", "floor": 14},
       {"rule": "ENTRY-GUARD", "floor": 6}, {"rule": "WHO-MAY", "filter": tag("exit"), "floor": 1},
       {"rule": "TOKEN-RANGE-SOURCE", "floor": 11}, {"rule": "INDEX-ELEM", "floor": 30},
       {"rule": "BUILTIN-SET", "floor": 3}, {"rule": "TEXT-SYNC", "filter": tag("batch", "clamp"), "floor": 6},
       {"rule": "RECURSION-BOUND", "floor": 4}, {"rule": "CODEC", "floor": 8}, {"rule": "BROKER", "filter": tag("answer"), "floor": 1},
-      {"rule": "ERR-FRAME", "filter": tag("entry"), "floor": 3}])
+      {"rule": "ERR-FRAME", "filter": tag("entry"), "floor": 3},
+      # a handler that takes the first token of a node's slice for the node's own token *and* panics on another kind of token
+      {"rule": "SLICE-FIRST", "filter": tag("panics"), "floor": 2}])
 
 prop("C03", NEC + "Clauses: each of the 27 build/semantic message kinds has an emitting site under table::* and its own "
      "text (VARIANTS); every error is attached in the reference frame of the node that owns it and is shifted exactly "
@@ -110,7 +112,9 @@ prop("C03", NEC + "Clauses: each of the 27 build/semantic message kinds has an e
      "used by the checker compares every field incl. the array creator (EQ-COMPLETE: SPL name equivalence); type expressions of type "
      "declarations and parameters are resolved in the global scope, those of local variables in the procedure scope (SCOPE-ORDER typescope); "
      "names used in a procedure body are resolved through the scoped LookupTable, never directly against the global table; a match "
-     "whose fall-through arm reports `not a <kind>` takes every value of that kind in the arms above (NOT-A-KIND: no cascaded diagnostic).",
+     "whose fall-through arm reports `not a <kind>` takes every value of that kind in the arms above (NOT-A-KIND: no cascaded diagnostic); "
+     "the error of an expect() is collected by an info(..) inside the Reference it was counted in (ERR-FRAME escape; one open known finding: the "
+     "missing operand of a binary operator).",
      [{"rule": "VARIANTS", "floor": 54}, {"rule": "MESSAGE-SITE", "floor": 32},
       {"rule": "FRAME", "filter": files(*FRONT_FRAME), "floor": 212},
       {"rule": "TRAVERSE", "filter": tag("errors", "analyze", "build"), "floor": 73}, {"rule": "EQ-COMPLETE", "floor": 43},
@@ -120,7 +124,11 @@ prop("C03", NEC + "Clauses: each of the 27 build/semantic message kinds has an e
       {"rule": "SCOPE-ORDER", "filter": tag("typescope", "semantic"), "floor": 5}, {"rule": "NOT-A-KIND", "floor": 3},
       {"rule": "KEYWORD-BOUNDARY", "filter": nottag("charvalue"), "floor": 3}, {"rule": "EMPTY-RANGE-GUARD", "filter": tag("diagstart"), "floor": 1},
       {"rule": "ERR-FRAME", "filter": tag("frame"), "floor": 4},
-      {"rule": "NOCONSUME", "filter": tag("tag"), "floor": 34}])
+      {"rule": "NOCONSUME", "filter": tag("tag"), "floor": 34},
+      # "a valid program gets no diagnostics at all": the parser accepts the whole grammar
+      {"rule": "PARSE-SHAPE", "floor": 18},
+      # missing-token faults: the diagnostic "lies on the offending construct" only if its position is read in the frame it was counted in
+      {"rule": "ERR-FRAME", "filter": tag("escape"), "floor": 1}])
 
 prop("C04", NEC + "Clauses: shape of the precedence-climbing parser (levels, loops, operand parsers, else binding) "
      "and agreement of parser levels with the operator classification used by the type checker (T5); raw token "
@@ -134,15 +142,19 @@ prop("C04", NEC + "Clauses: shape of the precedence-climbing parser (levels, loo
       {"rule": "SYNC-SETS", "floor": 14},
       {"rule": "ERR-FRAME", "filter": tag("frame"), "floor": 4},
       # a valid program gets no syntax diagnostic only if the parser is handed the program's tokens: a keyword is a whole word
-      {"rule": "KEYWORD-BOUNDARY", "filter": nottag("charvalue"), "floor": 3}])
+      {"rule": "KEYWORD-BOUNDARY", "filter": nottag("charvalue"), "floor": 3},
+      # "independent of whitespace and comments": a comment is one comment token, whatever line ending closes it
+      {"rule": "COMMENT-LEX", "floor": 5}])
 
 prop("C05", NEC + "Clauses: the five synchronisation sets are nested and all contain proc/type/eof, each error "
      "variant recovers with its own set (SYNC-SETS); failed token parsers and expect() hand back the original "
-     "input, and so do the five recovery parsers when they find nothing to ignore; declaration keywords are consumed only at declaration level (NOCONSUME).",
+     "input, and so do the five recovery parsers when they find nothing to ignore; declaration keywords are consumed only at declaration level (NOCONSUME); the text range of a published diagnostic is taken from the tokens its token range names (EMPTY-RANGE-GUARD diagtokens).",
      [{"rule": "SYNC-SETS", "floor": 14}, {"rule": "NOCONSUME", "filter": tag("tag", "expect", "kw", "recover"), "floor": 45},
       {"rule": "ERR-FRAME", "filter": tag("frame"), "floor": 4},
       # the damage arrives as an edit: "keeps its symbol-table entry" then needs the table to be rebuilt from the tree of the final text
-      {"rule": "STRIP-REBUILD", "floor": 2}, {"rule": "REBUILD", "floor": 1}])
+      {"rule": "STRIP-REBUILD", "floor": 2}, {"rule": "REBUILD", "filter": nottag("textid"), "floor": 1},
+      # "every syntax diagnostic lies within the damaged declaration": the published text range comes from the tokens the error names
+      {"rule": "EMPTY-RANGE-GUARD", "filter": tag("diagtokens"), "floor": 1}])
 
 prop("C06", NEC + "Clauses: alt(..) order vs. prefix relation of static lexemes (longest match), every static token "
      "lexed exactly once through the macro of its class, class order, exactly one Eof; token ranges are the ranges of the "
@@ -171,11 +183,13 @@ prop("C08", NEC + "Clauses: no content change is discarded, batched changes are 
      "client positions are interpreted only by get_insertion_index and positions sent out come only from as_position (POS-CONV); "
      "the scan for a client position has an exit that depends on the line alone (a column behind the end of a line is clamped to it); "
      "no byte distance is computed from terminator-stripped lines; the changes of a notification are applied in the order they were "
-     "converted in (UPDATE-ORDER).",
+     "converted in (UPDATE-ORDER); the text kept (and lexed) at didOpen is the text handed in (REBUILD textid).",
      [{"rule": "TEXT-SYNC", "floor": 15}, {"rule": "LEN-UNITS", "floor": 3}, {"rule": "POS-CONV", "floor": 22},
       {"rule": "UPDATE-ORDER", "floor": 3},
       # "any range the server reports for a token addresses that token": semantic tokens report ranges relative to the previous token
-      {"rule": "SEMTOK-PAIRING", "floor": 9}])
+      {"rule": "SEMTOK-PAIRING", "floor": 9},
+      # the server's copy starts as the text of didOpen: AnalyzedSource::new keeps the text it is handed
+      {"rule": "REBUILD", "filter": tag("textid"), "floor": 1}])
 
 prop("C09", NEC + "Clauses: operators are re-printed as the lexeme they were lexed from (T4); every Format impl prints "
      "every child that holds an identifier, literal or operator and every Error variant (TRAVERSE); every token slice "
@@ -194,14 +208,16 @@ prop("C10", NEC + "Clause: a composite node whose parser skips comments in front
      "COMMENT-LEX; handlers do not mistake the comment in front of a node for the node's first token (SLICE-FIRST).",
      [{"rule": "COMMENT-PAIRING", "floor": 21}, {"rule": "DOC-IN-RANGE", "floor": 5}, {"rule": "SLICE-FIRST", "floor": 20},
       {"rule": "COMMENT-LEX", "floor": 5},
-      {"rule": "LEN-UNITS", "filter": tag("arith"), "floor": 1}, {"rule": "TABLES", "filter": tag("T2"), "floor": 18}])
+      {"rule": "LEN-UNITS", "filter": tag("arith"), "floor": 1}, {"rule": "TABLES", "filter": tag("T2"), "floor": 18},
+      # "exactly once" is about the document after the edit is applied: the edit covers the whole old text
+      {"rule": "FMT-PURE", "filter": tag("wholedoc"), "floor": 1}])
 
 prop("C11", NEC + "Clauses: the printer does not read byte positions (output is a function of tree and token kinds), the "
      "indentation unit follows insertSpaces/tabSize, null is returned exactly on equality; character literals are printed only with "
      "escapes the lexer reads back (CHAR-ESCAPES: otherwise the formatted text re-lexes differently and a second run changes it again); the "
      "all-comments helper is applied only to text whose parts print no comments themselves (COMMENT-PAIRING nested: otherwise every run adds "
      "another copy of the inner comments in front of the node).",
-     [{"rule": "FMT-PURE", "floor": 5}, {"rule": "CHAR-ESCAPES", "floor": 2}, {"rule": "COMMENT-PAIRING", "filter": tag("nested", "order"), "floor": 4}])
+     [{"rule": "FMT-PURE", "filter": nottag("rewrite"), "floor": 5}, {"rule": "CHAR-ESCAPES", "floor": 2}, {"rule": "COMMENT-PAIRING", "filter": tag("nested", "order"), "floor": 4}])
 
 prop("C12", NEC + "Clauses: an entry's name range is resolved against the token slice cut with that same entry's range "
      "(FRAME S7 in goto.rs / features.rs); inside a procedure the identifier is resolved local-then-global through a "
@@ -212,7 +228,7 @@ prop("C12", NEC + "Clauses: an entry's name range is resolved against the token 
       {"rule": "SCOPE-ORDER", "filter": both(feat("goto"), nottag("typescope", "semantic")), "floor": 24}, {"rule": "ENTRY-GUARD", "floor": 6}, {"rule": "ENTRY-KIND", "floor": 4},
       {"rule": "LOOKUP-NOPANIC", "filter": feat("goto"), "floor": 8}, {"rule": "BUILTIN-SET", "floor": 3}, {"rule": "POS-CONV", "filter": feat("goto"), "floor": 6},
        {"rule": "IDENT-RANGE", "filter": both(tag("identexact"), feat("goto")), "floor": 1},
-      {"rule": "CURSOR-CMP", "filter": feat("goto"), "floor": 0},
+      {"rule": "CURSOR-CMP", "filter": feat("goto"), "floor": 0}, {"rule": "INDEX-DOMAIN", "floor": 2},
       {"rule": "FRAME", "filter": files("parser.rs", "utility.rs"), "floor": 3},
       {"rule": "TEXT-SYNC", "filter": tag("utf16"), "floor": 1},
       {"rule": "ERR-FRAME", "filter": tag("entry"), "floor": 3}])
@@ -225,7 +241,7 @@ prop("C13", NEC + "Clauses: the finder walkers descend into every statement/expr
       {"rule": "FRAME", "filter": files("references.rs"), "floor": 56}, {"rule": "SAME-FINDER", "floor": 3},
       {"rule": "SCOPE-ORDER", "filter": both(feat("references"), nottag("typescope", "semantic")), "floor": 10}, {"rule": "IDENT-RANGE", "filter": feat("references"), "floor": 3}, {"rule": "POS-CONV", "filter": feat("references"), "floor": 4},
        {"rule": "BSEARCH-MONO", "floor": 1},
-      {"rule": "CURSOR-CMP", "filter": feat("references"), "floor": 0},
+      {"rule": "CURSOR-CMP", "filter": feat("references"), "floor": 0}, {"rule": "INDEX-DOMAIN", "floor": 2},
       {"rule": "FRAME", "filter": files("parser.rs", "utility.rs"), "floor": 3},
       {"rule": "TEXT-SYNC", "filter": tag("utf16"), "floor": 1}])
 
@@ -239,7 +255,7 @@ prop("C14", NEC + "Clauses: the call statement is located with node, origin and 
      [{"rule": "FRAME", "filter": files("signature_help.rs"), "floor": 8},
       {"rule": "TRAVERSE", "filter": tag("calls"), "floor": 18}, {"rule": "SCOPE-ORDER", "filter": both(feat("hover", "signature_help"), nottag("typescope", "semantic")), "floor": 10},
       {"rule": "DISPLAY-FIELDS", "floor": 6}, {"rule": "IDENT-RANGE", "filter": feat("hover", "signature_help"), "floor": 4}, {"rule": "POS-CONV", "filter": feat("hover", "signature_help"), "floor": 4},
-      {"rule": "CURSOR-CMP", "filter": feat("hover", "signature_help"), "floor": 1}, {"rule": "DOC-FLOW", "floor": 1},
+      {"rule": "CURSOR-CMP", "filter": feat("hover", "signature_help"), "floor": 1}, {"rule": "INDEX-DOMAIN", "floor": 2}, {"rule": "DOC-FLOW", "floor": 1},
       {"rule": "POSITION-TOKEN", "filter": both(tag("nest"), feat("hover", "signature_help")), "floor": 0},
       {"rule": "FRAME", "filter": files("parser.rs", "utility.rs"), "floor": 3},
       {"rule": "TEXT-SYNC", "filter": tag("utf16"), "floor": 1}])
@@ -260,7 +276,7 @@ prop("C16", NEC + "Clauses: every token slice / node pair that drives the positi
      "the statement the cursor is located in are determined without the comments in front of the cursor / statement (POSITION-TOKEN)." + PARSER_REF,
      [{"rule": "FRAME", "filter": files("completion.rs"), "floor": 18}, {"rule": "SCOPE-ORDER", "filter": both(feat("completion"), nottag("typescope", "semantic")), "floor": 5},
       {"rule": "KIND-FILTER", "floor": 7}, {"rule": "NO-MERGE", "floor": 24}, {"rule": "POSITION-TOKEN", "filter": feat("completion"), "floor": 3},
-      {"rule": "CURSOR-CMP", "filter": feat("completion"), "floor": 0},
+      {"rule": "CURSOR-CMP", "filter": feat("completion"), "floor": 1},
       {"rule": "FRAME", "filter": files("parser.rs", "utility.rs"), "floor": 3}])
 
 prop("C17", NEC + "Clause: the procedure's token range is made absolute with the offset of the Reference it was reached "
